@@ -132,6 +132,24 @@ def runLine (s0 : State) (ops : List Op) : String :=
   | none => "panic"
   | some (s, rs) => s!"r={resStr rs} {showState s}"
 
+/-- `uint32(x)` of a non-negative finite double below 2^63 as Go/amd64 computes it (truncate, keep the
+    low 32 bits); NaN gives 0 there as well -/
+def f64ToU32 (x : Float) : Nat := x.toUInt64.toNat % 2 ^ 32
+
+/-- the sizing arithmetic of `bloom.NewFilter` (float64; not used by any theorem):
+    `ln2Squared` is Go's exact constant product rounded once, given here by its bit pattern -/
+def newFilterShape (elements : UInt32) (fprateBits : UInt64) : Nat × Nat :=
+  let fp := Float.ofBits fprateBits
+  let fp := if fp > 1.0 then 1.0 else fp
+  let fp := if fp < 1e-9 then 1e-9 else fp
+  let ln2sq := Float.ofBits 4602326691975710095
+  let ln2 := Float.ofBits 4604418534313441775
+  let e := elements.toNat.toFloat
+  let dataLen := f64ToU32 (-1.0 * e * Float.log fp / ln2sq)
+  let dataLen := (min dataLen (Spec.MAX_FILTER_SIZE * 8)) / 8
+  let k := f64ToU32 ((dataLen * 8).toFloat / e * ln2)
+  (dataLen, min k Spec.MAX_HASH_FUNCS)
+
 def handle : List String → String
   | ["bloommm", sd, d] =>
     match u32? sd, hexToList? d with
@@ -147,14 +165,18 @@ def handle : List String → String
       | some bits => runLine (load (some ⟨bits, UInt32.ofNat k, t, UInt8.ofNat fl⟩)) ops
       | none => "bad-op"
     | _, _, _, _ => "bad-op"
-  | ["bloomnew", el, _fp, t, fl, size, k, ops] =>
-    match u32? el, u32? t, fl.toNat?, size.toNat?, k.toNat?, parseOps? ops with
-    | some _, some t, some fl, some size, some k, some ops =>
-      if fl ≥ 256 then "bad-op" else
+  | ["bloomnew", el, fp, t, fl, size, k, ops] =>
+    match u32? el, hexToNat? fp, u32? t, fl.toNat?, size.toNat?, k.toNat?, parseOps? ops with
+    | some el, some fp, some t, some fl, some size, some k, some ops =>
+      if fl ≥ 256 ∨ fp ≥ 2 ^ 64 then "bad-op" else
       if size > Spec.MAX_FILTER_SIZE ∨ k > Spec.MAX_HASH_FUNCS then "err:limits" else
+      -- the shape is recomputed here (IEEE double arithmetic as in NewFilter); the one on the line is
+      -- what the generator saw from the code under test
+      let (size', k') := newFilterShape el (UInt64.ofNat fp)
+      if size' ≠ size ∨ k' ≠ k then s!"shape:{size'}:{k'}" else
       -- NewFilter does not normalise: an empty field keeps its hash-function count
       runLine (some ⟨List.replicate size 0, UInt32.ofNat k, t, UInt8.ofNat fl⟩) ops
-    | _, _, _, _, _, _ => "bad-op"
+    | _, _, _, _, _, _, _ => "bad-op"
   | _ => "bad-op"
 
 end BV.C20.DriverBloom
